@@ -1636,11 +1636,11 @@ def task_fstat_kernels(scratch, tier, seed, logdir):
         caps = {n: show(_deref_env(p, t)) for n, t in zip(names, cl[2])}
         want = {"n_i_sub": 0, "n_j_sub": 1}
         for n, ax in want.items():
-            if not re.fullmatch(rf"to_real\(Sub\(select\(deref\(<Shape as Deref>::deref\(spectrum::Spectrum::<Frequencies>::shape\(sfs\)\)\), {ax}\), 2\)\)", caps.get(n, "")):
+            if not re.fullmatch(rf"to_real\(Sub\(select\(deref\(<Shape as Deref>::deref\(spectrum::Spectrum::<\w+>::shape\(sfs\)\)\), {ax}\), 2\)\)", caps.get(n, "")):
                 ob.fail("violation", f"{n} is not (length of axis {ax}) - 2, i.e. n - 1 of that population: {caps.get(n, '?')[:160]}")
         # the iteration skips the two monomorphic cells and pairs values with frequencies
         it = show(mp[0][1][0])
-        if not (it.startswith("<std::iter::Take<Zip<") and "Iterator>::skip(" in it and ", 1)" in it and "Sub(spectrum::Spectrum::<Frequencies>::elements(sfs), 1)" in it and "iter_frequencies(sfs)" in it and "array::Array::<f64>::iter(" in it):
+        if not (it.startswith("<std::iter::Take<Zip<") and "Iterator>::skip(" in it and ", 1)" in it and re.search(r"Sub\(spectrum::Spectrum::<\w+>::elements\(sfs\), 1\)", it) and "iter_frequencies(sfs)" in it and "array::Array::<f64>::iter(" in it):
             ob.fail("violation", "the cells are not zip(values, frequencies).take(elements - 1).skip(1): " + it[:200])
         r_ = show(p.ret)
         if not re.fullmatch(r"ctor:Fst\(Div\(field\((.*), 0\), field\(\1, 1\)\)\)", r_):
